@@ -10,6 +10,7 @@ down to the client-library call), regenerated from src/deep/api/plugin/metric/pr
                                              the except clause around everything
   PrometheusPlugin.clear                  -> checked: unregisters every cached metric, empties the cache
   the import line                         -> the client classes really are prometheus_client's
+  prometheus_client default collectors    -> the names already held in the default registry (foreignNames)
 Anything else in these methods (another statement, another argument) is `Untranslatable`.
 """
 import ast
@@ -177,6 +178,26 @@ def part_imports(tree):
     return ''
 
 
+def part_foreign():
+    """the time-series names prometheus_client's own default collectors hold in the default registry of every process
+    (read from the INSTALLED client library: a fresh registry with the three default collectors, so the answer does not
+    depend on what this process has registered meanwhile)"""
+    try:
+        from prometheus_client import CollectorRegistry, ProcessCollector, PlatformCollector, GCCollector
+        r = CollectorRegistry(auto_describe=True)
+        ProcessCollector(registry=r)
+        PlatformCollector(registry=r)
+        GCCollector(registry=r)
+        names = sorted(r._names_to_collectors)
+    except Exception as e:  # noqa: B902
+        raise Untranslatable('default collectors of prometheus_client: %s: %s' % (type(e).__name__, e))
+    if not names:
+        raise Untranslatable('prometheus_client registers no default collectors')
+    return ('/-- time-series names held by prometheus_client\'s default collectors (process, platform, gc) in the default\n'
+            '    registry — read from the installed library -/\n'
+            'def foreignNames : List String :=\n  [' + ',\n   '.join(lean_str(n) for n in names) + ']\n')
+
+
 def generate():
     tree = load(PROM)
     part_imports(tree)
@@ -210,4 +231,5 @@ def generate():
         '    label dict is non-empty (checked) -/\n'
         'def methods : List (String × Method) :=\n [' + ',\n '.join(r.strip() for r in rows) + ']\n',
         part_clear(tree),
+        part_foreign(),
         'end Extracted.C17Prom\n'])
